@@ -354,3 +354,454 @@ Proof.
   unfold mkid in Heq. apply pair_equal_spec in Heq as [Heq ->]. apply pair_equal_spec in Heq as [Hr Hk].
   exists f, ib. repeat split; assumption.
 Qed.
+
+(* ================================================================ a generic invariant rule for convertToFiles *)
+
+Section ConvertInvariant.
+  Variables (c : conds) (M : Z).
+  Variable Po : ofile -> Prop.                                   (* what is known about each out-file of the state *)
+  Variable B : ofile -> header -> list entry -> cstate -> Prop.  (* inside a batch; the list = entries still to come *)
+  Variable F : ofile -> cstate -> Prop.                          (* between batches *)
+  Variable G : list rfile * Z -> Prop.                           (* between out-files *)
+  Hypothesis file_start : forall o acc, Po o -> G acc -> F o (mkC (fst acc) [] [] 2 0 (snd acc)).
+  Hypothesis batch_start : forall o b s, Po o -> In b (of_batches o) -> F o s ->
+    B o (ob_header b) (map snd (ob_entries b)) (mkC (c_out s) (c_file s) [] (c_L s + 2) (c_D s) (c_bn s + 1)).
+  Hypothesis entry_step : forall o h e rest s, Po o -> B o h (e :: rest) s -> B o h rest (step_entry c M o h s e).
+  Hypothesis batch_end : forall o h s, Po o -> B o h [] s ->
+    F o (mkC (c_out s) (close_batch h s) [] (c_L s) (c_D s) (c_bn s)).
+  Hypothesis file_end : forall o s, Po o -> F o s -> G (close_file o (c_file s) (c_out s), c_bn s).
+
+  Lemma inv_entries o h es s : Po o -> B o h es s -> B o h [] (fold_left (step_entry c M o h) es s).
+  Proof.
+    intros Ho. revert s. induction es as [|e es IH]; intros s Hs; cbn [fold_left]; [exact Hs|].
+    apply IH. now apply entry_step.
+  Qed.
+
+  Lemma inv_batches o bs s : Po o -> incl bs (of_batches o) -> F o s -> F o (fold_left (step_batch c M o) bs s).
+  Proof.
+    intros Ho. revert s. induction bs as [|b bs IH]; intros s Hin Hs; cbn [fold_left]; [exact Hs|].
+    apply IH; [intros x Hx; apply Hin; now right|].
+    unfold step_batch. apply batch_end; [exact Ho|]. apply inv_entries; [exact Ho|].
+    apply batch_start; [exact Ho| apply Hin; now left | exact Hs].
+  Qed.
+
+  Lemma inv_files st acc : Forall Po st -> G acc -> G (fold_left (step_file c M) st acc).
+  Proof.
+    revert acc. induction st as [|o st IH]; intros acc Hst Hacc; cbn [fold_left]; [exact Hacc|].
+    inversion Hst as [|? ? Ho Hst']; subst. apply IH; [exact Hst'|].
+    unfold step_file. apply file_end; [exact Ho|]. apply inv_batches; [exact Ho|apply incl_refl|].
+    now apply file_start.
+  Qed.
+End ConvertInvariant.
+
+(* ================================================================ sums *)
+
+Lemma zsum_app a b : zsum (a ++ b) = zsum a + zsum b.
+Proof. unfold zsum. induction a as [|x a IH]; cbn [app fold_right]; [lia|]. fold (zsum a) in *. lia. Qed.
+
+Lemma batches_lines_app a b : batches_lines (a ++ b) = batches_lines a + batches_lines b.
+Proof. unfold batches_lines. now rewrite map_app, zsum_app. Qed.
+
+Lemma batches_amount_app a b : batches_amount (a ++ b) = batches_amount a + batches_amount b.
+Proof. unfold batches_amount. now rewrite map_app, zsum_app. Qed.
+
+Lemma batches_entries_app a b : batches_entries (a ++ b) = batches_entries a ++ batches_entries b.
+Proof. unfold batches_entries. apply flat_map_app. Qed.
+
+Lemma renumber_lines seq bs : batches_lines (renumber seq bs) = batches_lines bs.
+Proof.
+  unfold batches_lines. revert seq. induction bs as [|b r IH]; intros seq; cbn [renumber map zsum fold_right]; [reflexivity|].
+  fold (zsum (map batch_lines (renumber (seq + 1) r))). fold (zsum (map batch_lines r)). rewrite IH.
+  destruct (rb_number b <=? 1); reflexivity.
+Qed.
+
+Lemma renumber_amount seq bs : batches_amount (renumber seq bs) = batches_amount bs.
+Proof.
+  unfold batches_amount. revert seq. induction bs as [|b r IH]; intros seq; cbn [renumber map zsum fold_right]; [reflexivity|].
+  fold (zsum (map batch_amount (renumber (seq + 1) r))). fold (zsum (map batch_amount r)). rewrite IH.
+  destruct (rb_number b <=? 1); reflexivity.
+Qed.
+
+Lemma renumber_entries seq bs : batches_entries (renumber seq bs) = batches_entries bs.
+Proof.
+  unfold batches_entries. revert seq. induction bs as [|b r IH]; intros seq; cbn [renumber flat_map]; [reflexivity|].
+  rewrite IH. destruct (rb_number b <=? 1); reflexivity.
+Qed.
+
+Lemma renumber_headers seq bs :
+  map (fun rb => (rb_header rb, rb_entries rb)) (renumber seq bs) = map (fun rb => (rb_header rb, rb_entries rb)) bs.
+Proof.
+  revert seq. induction bs as [|b r IH]; intros seq; cbn [renumber map]; [reflexivity|].
+  rewrite IH. destruct (rb_number b <=? 1); reflexivity.
+Qed.
+
+(* ================================================================ C09: limits *)
+
+Definition nent (bs : list rbatch) : nat := length (batches_entries bs).
+
+(* what the property demands of one output file (given as its batch list) *)
+Definition lim_ok (c : conds) (M : Z) (bs : list rbatch) : Prop :=
+  (0 < maxLines c -> 2 + batches_lines bs <= maxLines c \/ (nent bs <= 1)%nat) /\
+  (0 < M -> batches_amount bs <= M \/ (nent bs <= 1)%nat) /\
+  Forall (fun rb => rb_entries rb <> []) bs.
+
+Definition out_ok (c : conds) (M : Z) (out : list rfile) : Prop :=
+  Forall (fun g => lim_ok c M (rf_batches g) /\ rf_batches g <> []) out.
+
+Definition lim_B (c : conds) (M : Z) (o : ofile) (h : header) (rest : list entry) (s : cstate) : Prop :=
+  out_ok c M (c_out s) /\ lim_ok c M (c_file s) /\
+  2 + batches_lines (c_file s) + 2 + zsum (map entry_lines (c_bent s)) <= c_L s /\
+  batches_amount (c_file s) + zsum (map e_amount (c_bent s)) = c_D s /\
+  (c_bent s <> [] -> 0 < maxLines c -> c_L s <= maxLines c \/ (nent (c_file s) + length (c_bent s) <= 1)%nat) /\
+  (c_bent s <> [] -> 0 < M -> c_D s <= M \/ (nent (c_file s) + length (c_bent s) <= 1)%nat).
+
+Definition lim_F (c : conds) (M : Z) (o : ofile) (s : cstate) : Prop :=
+  out_ok c M (c_out s) /\ lim_ok c M (c_file s) /\
+  2 + batches_lines (c_file s) <= c_L s /\ batches_amount (c_file s) = c_D s.
+
+Lemma lim_ok_nil c M : lim_ok c M [].
+Proof. unfold lim_ok, nent. cbn. repeat split; auto. Qed.
+
+Lemma lim_ok_renumber c M seq bs : lim_ok c M bs -> lim_ok c M (renumber seq bs).
+Proof.
+  unfold lim_ok, nent. rewrite renumber_lines, renumber_amount, renumber_entries.
+  intros (H1 & H2 & H3). repeat split; auto.
+  clear H1 H2. revert seq. induction H3 as [|b r Hb Hr IH]; intros seq; cbn [renumber]; constructor; auto.
+  destruct (rb_number b <=? 1); exact Hb.
+Qed.
+
+Lemma lim_close_batch c M o h rest s :
+  lim_B c M o h rest s ->
+  lim_ok c M (close_batch h s) /\ 2 + batches_lines (close_batch h s) <= c_L s /\
+  batches_amount (close_batch h s) = c_D s.
+Proof.
+  intros (Hout & (Hl & Hd & Hne) & HL & HD & HbL & HbD). unfold close_batch.
+  destruct (c_bent s) as [|e es] eqn:Hb.
+  - cbn [map zsum fold_right] in HL, HD. repeat split; auto; lia.
+  - assert (Hnn : e :: es <> []) by discriminate.
+    specialize (HbL Hnn). specialize (HbD Hnn).
+    set (nb := mkRBatch (c_bn s) h (e :: es)).
+    assert (E1 : batches_lines [nb] = 2 + zsum (map entry_lines (e :: es))).
+    { unfold batches_lines, batch_lines, nb. cbn [map zsum fold_right rb_entries]. lia. }
+    assert (E2 : batches_amount [nb] = zsum (map e_amount (e :: es))).
+    { unfold batches_amount, batch_amount, nb. cbn [map zsum fold_right rb_entries]. lia. }
+    assert (E3 : batches_entries [nb] = e :: es).
+    { unfold batches_entries, nb. cbn [flat_map rb_entries]. apply app_nil_r. }
+    unfold lim_ok, nent. rewrite batches_lines_app, batches_amount_app, batches_entries_app, app_length, E1, E2, E3.
+    unfold nent in HbL, HbD.
+    repeat split.
+    + intros Hpos. destruct (HbL Hpos) as [H|H]; [left; lia|right; exact H].
+    + intros Hpos. destruct (HbD Hpos) as [H|H]; [left; lia|right; exact H].
+    + apply Forall_app. split; [exact Hne|]. constructor; [cbn; discriminate|constructor].
+    + lia.
+    + lia.
+Qed.
+
+Lemma out_ok_close_file c M o bs out :
+  out_ok c M out -> lim_ok c M bs -> out_ok c M (close_file o bs out).
+Proof.
+  intros Hout Hbs. unfold close_file. destruct bs as [|b r]; [exact Hout|].
+  apply Forall_app. split; [exact Hout|]. constructor; [|constructor].
+  unfold create_file. cbn [rf_batches]. split; [now apply lim_ok_renumber|].
+  cbn [renumber]. discriminate.
+Qed.
+
+Lemma lim_entry_step c M o h e rest s :
+  lim_B c M o h (e :: rest) s -> lim_B c M o h rest (step_entry c M o h s e).
+Proof.
+  intros Hs. pose proof (lim_close_batch _ _ _ _ _ _ Hs) as (Hcb & _ & _).
+  destruct Hs as (Hout & Hf & HL & HD & HbL & HbD).
+  unfold step_entry. destruct (exceeds c M (c_L s) (c_D s) e) eqn:Hex.
+  - unfold lim_B. cbn [c_out c_file c_bent c_L c_D].
+    split; [now apply out_ok_close_file|]. split; [apply lim_ok_nil|].
+    unfold batches_lines, batches_amount, nent, batches_entries. cbn [map zsum fold_right flat_map length].
+    unfold entry_lines. repeat split; try lia; intros _ _; right; lia.
+  - unfold lim_B. cbn [c_out c_file c_bent c_L c_D].
+    split; [exact Hout|]. split; [exact Hf|].
+    rewrite !map_app, !zsum_app. cbn [map zsum fold_right]. unfold entry_lines at 2.
+    unfold exceeds in Hex.
+    repeat split; try lia; intros _ Hpos; left; lia.
+Qed.
+
+Lemma convert_limits c st : out_ok c (effective_dollar c) (convert c st).
+Proof.
+  unfold convert. set (M := effective_dollar c).
+  apply (inv_files c M (fun _ => True) (lim_B c M) (lim_F c M) (fun acc => out_ok c M (fst acc))).
+  - intros o acc _ Hacc. unfold lim_F. cbn [c_out c_file c_L c_D].
+    split; [exact Hacc|]. split; [apply lim_ok_nil|]. unfold batches_lines, batches_amount. cbn. lia.
+  - intros o b s _ _ (Hout & Hf & HL & HD). unfold lim_B. cbn [c_out c_file c_bent c_L c_D map zsum fold_right].
+    split; [exact Hout|]. split; [exact Hf|]. split; [lia|]. split; [lia|].
+    split; intros Hn; now contradiction Hn.
+  - intros o h e rest s _. apply lim_entry_step.
+  - intros o h s _ Hs. pose proof (lim_close_batch _ _ _ _ _ _ Hs) as (Hcb & HL & HD).
+    destruct Hs as (Hout & _). unfold lim_F. cbn [c_out c_file c_L c_D].
+    split; [exact Hout|]. split; [exact Hcb|]. split; assumption.
+  - intros o s _ (Hout & Hf & _). cbn [fst]. now apply out_ok_close_file.
+  - apply Forall_forall. intros; exact I.
+  - constructor.
+Qed.
+
+Lemma merge_limits fs c g :
+  In g (merge_files fs c) ->
+  (0 < maxLines c -> file_lines g <= maxLines c \/ length (file_entries g) = 1%nat) /\
+  (0 < effective_dollar c -> file_amount g <= effective_dollar c \/ length (file_entries g) = 1%nat) /\
+  rf_batches g <> [] /\ Forall (fun rb => rb_entries rb <> []) (rf_batches g).
+Proof.
+  intros Hg. pose proof (convert_limits c (build_state fs)) as H.
+  unfold out_ok in H. rewrite Forall_forall in H. specialize (H g Hg) as ((Hl & Hd & Hne) & Hnb).
+  assert (Hpos : (1 <= length (file_entries g))%nat).
+  { unfold file_entries, batches_entries. destruct (rf_batches g) as [|b r]; [contradiction|].
+    inversion Hne as [|? ? Hb _]; subst. cbn [flat_map]. rewrite app_length.
+    destruct (rb_entries b); [contradiction|cbn; lia]. }
+  unfold file_lines, file_amount. unfold nent in Hl, Hd. fold (file_entries g) in Hl, Hd.
+  repeat split; auto.
+  - intros Hp. destruct (Hl Hp) as [?|?]; [left; assumption|right; lia].
+  - intros Hp. destruct (Hd Hp) as [?|?]; [left; assumption|right; lia].
+Qed.
+
+Lemma effective_dollar_spec c :
+  (maxDollar c < 0 -> effective_dollar c = maxDollar c) /\
+  (0 <= maxDollar c -> 0 < effective_dollar c <= nacha_limit) /\
+  (0 < maxDollar c <= nacha_limit -> effective_dollar c = maxDollar c).
+Proof. unfold effective_dollar, nacha_limit. repeat split; intros; destruct (maxDollar c =? 0) eqn:?, (999999999999 <? maxDollar c) eqn:?; cbn; lia. Qed.
+
+(* ================================================================ C09: ascending batch numbers *)
+
+(* strictly ascending and all above lo *)
+Fixpoint asc (lo : Z) (l : list Z) : Prop :=
+  match l with
+  | [] => True
+  | x :: r => lo < x /\ asc x r
+  end.
+
+Lemma asc_last_le lo l x y : asc lo (l ++ [x]) -> x <= y -> asc lo (l ++ [y]).
+Proof. revert lo. induction l as [|a l IH]; intros lo; cbn; intros [H1 H2] Hxy; split; try lia; auto. Qed.
+
+Lemma asc_snoc lo l x y : asc lo (l ++ [x]) -> x < y -> asc lo ((l ++ [x]) ++ [y]).
+Proof. revert lo. induction l as [|a l IH]; intros lo; cbn; intros [H1 H2] Hxy; repeat split; try lia; auto. Qed.
+
+Lemma asc_prefix lo l x : asc lo (l ++ [x]) -> asc lo l.
+Proof. revert lo. induction l as [|a l IH]; intros lo; cbn; [auto|]. intros [H1 H2]. split; eauto. Qed.
+
+Lemma asc_last_gt lo l x : asc lo (l ++ [x]) -> lo < x.
+Proof. revert lo. induction l as [|a l IH]; intros lo; cbn; intros [H1 H2]; [lia|]. specialize (IH _ H2). lia. Qed.
+
+Lemma renumber_id lo seq bs : asc lo (map rb_number bs) -> 1 <= seq <= lo + 1 -> renumber seq bs = bs.
+Proof.
+  revert lo seq. induction bs as [|b r IH]; intros lo seq; cbn [map asc renumber]; [reflexivity|].
+  intros [H1 H2] Hs. rewrite (IH (rb_number b) (seq + 1) H2) by lia.
+  destruct (rb_number b <=? 1) eqn:Hn; [|reflexivity].
+  assert (seq = rb_number b) as -> by lia. destruct b; reflexivity.
+Qed.
+
+Definition nums (bs : list rbatch) : list Z := map rb_number bs.
+
+Definition out_num (out : list rfile) : Prop := Forall (fun g => asc 0 (nums (rf_batches g))) out.
+
+Lemma nums_close_batch h s :
+  nums (close_batch h s) = nums (c_file s) \/ nums (close_batch h s) = nums (c_file s) ++ [c_bn s].
+Proof.
+  unfold close_batch, nums. destruct (c_bent s); [now left|right]. now rewrite map_app.
+Qed.
+
+Lemma out_num_close_file o bs out : out_num out -> asc 0 (nums bs) -> out_num (close_file o bs out).
+Proof.
+  intros Hout Hbs. unfold close_file. destruct bs as [|b r]; [exact Hout|].
+  apply Forall_app. split; [exact Hout|]. constructor; [|constructor].
+  unfold create_file. cbn [rf_batches]. rewrite (renumber_id 0 1 (b :: r) Hbs) by lia. exact Hbs.
+Qed.
+
+Lemma convert_numbers c st : out_num (convert c st).
+Proof.
+  unfold convert. set (M := effective_dollar c).
+  apply (inv_files c M (fun _ => True)
+           (fun o h rest s => out_num (c_out s) /\ asc 0 (nums (c_file s) ++ [c_bn s]))
+           (fun o s => out_num (c_out s) /\ asc 0 (nums (c_file s) ++ [c_bn s + 1]))
+           (fun acc => out_num (fst acc) /\ 0 <= snd acc)).
+  - intros o acc _ [Hout Hbn]. cbn [c_out c_file c_bn nums map app asc]. split; [exact Hout|]. split; [lia|exact I].
+  - intros o b s _ _ [Hout Hn]. cbn [c_out c_file c_bn]. split; assumption.
+  - intros o h e rest s _ [Hout Hn]. unfold step_entry. destruct (exceeds c M (c_L s) (c_D s) e).
+    + cbn [c_out c_file c_bn nums map app asc]. pose proof (asc_last_gt _ _ _ Hn) as Hpos.
+      split; [|split; [lia|exact I]]. apply out_num_close_file; [exact Hout|].
+      destruct (nums_close_batch h s) as [-> | ->]; [eapply asc_prefix; exact Hn|exact Hn].
+    + cbn [c_out c_file c_bn]. split; assumption.
+  - intros o h s _ [Hout Hn]. cbn [c_out c_file c_bn]. split; [exact Hout|].
+    destruct (nums_close_batch h s) as [-> | ->].
+    + eapply asc_last_le; [exact Hn|lia].
+    + apply asc_snoc; [exact Hn|lia].
+  - intros o s _ [Hout Hn]. cbn [fst snd]. pose proof (asc_last_gt _ _ _ Hn). split; [|lia].
+    apply out_num_close_file; [exact Hout|]. eapply asc_prefix; exact Hn.
+  - apply Forall_forall. intros; exact I.
+  - cbn. split; [constructor|lia].
+Qed.
+
+Lemma merge_numbers fs c g : In g (merge_files fs c) -> asc 0 (map rb_number (rf_batches g)).
+Proof.
+  intros Hg. pose proof (convert_numbers c (build_state fs)) as H. unfold out_num in H.
+  rewrite Forall_forall in H. exact (H g Hg).
+Qed.
+
+(* ================================================================ C09: ascending unique traces *)
+
+(* adjacent entries strictly ascending by trace number in Go's string order *)
+Fixpoint tasc (l : list entry) : Prop :=
+  match l with
+  | [] => True
+  | x :: r => match r with [] => True | y :: _ => bcmp (e_trace x) (e_trace y) = Lt end /\ tasc r
+  end.
+
+Lemma tasc_app_l a b : tasc (a ++ b) -> tasc a.
+Proof.
+  induction a as [|x a IH]; cbn [app tasc]; [auto|]. intros [H1 H2]. split; [|auto].
+  destruct a as [|y a]; [exact I|exact H1].
+Qed.
+
+Lemma tasc_app_r a b : tasc (a ++ b) -> tasc b.
+Proof. induction a as [|x a IH]; cbn [app]; [auto|]. intros H. apply IH. cbn [tasc] in H. apply H. Qed.
+
+(* tasc is strict sortedness: any two positions are ordered *)
+Lemma tasc_all_lt x l : tasc (x :: l) -> Forall (fun y => bcmp (e_trace x) (e_trace y) = Lt) l.
+Proof.
+  revert x. induction l as [|y l IH]; intros x H; [constructor|].
+  destruct H as [Hxy Hl]. constructor; [exact Hxy|].
+  specialize (IH y Hl). eapply Forall_impl; [|exact IH]. cbn. intros z Hz. eapply bcmp_trans; eauto.
+Qed.
+
+Definition lb (x : bytes) (m : tmap) : Prop := match m with [] => True | (k, _) :: _ => bcmp x k = Lt end.
+
+Fixpoint ksorted (m : tmap) : Prop :=
+  match m with
+  | [] => True
+  | (k, _) :: r => lb k r /\ ksorted r
+  end.
+
+Lemma lb_set x k v m : lb x m -> bcmp x k = Lt -> lb x (tm_set k v m).
+Proof. destruct m as [|[k2 v2] r]; cbn; [auto|]. intros H1 H2. destruct (bcmp k k2); cbn; auto. Qed.
+
+Lemma tm_set_sorted k v m : ksorted m -> ksorted (tm_set k v m).
+Proof.
+  induction m as [|[k2 v2] r IH]; cbn [tm_set ksorted]; [cbn; auto|].
+  intros [H1 H2]. destruct (bcmp k k2) eqn:Hc.
+  - apply bcmp_eq in Hc. subst k2. cbn [ksorted]. split; assumption.
+  - cbn [ksorted lb]. repeat split; assumption.
+  - cbn [ksorted]. split; [|auto]. apply lb_set; [exact H1|now apply bcmp_gt_lt].
+Qed.
+
+Definition tm_wf (m : tmap) : Prop := ksorted m /\ Forall (fun p => fst p = e_trace (snd p)) m.
+
+Lemma tm_set_keys k v m :
+  k = e_trace v -> Forall (fun p => fst p = e_trace (snd p)) m -> Forall (fun p => fst p = e_trace (snd p)) (tm_set k v m).
+Proof.
+  intros Hk. induction m as [|[k2 v2] r IH]; cbn [tm_set]; intros H.
+  - constructor; [exact Hk|constructor].
+  - inversion H as [|? ? Hh Ht]; subst. destruct (bcmp (e_trace v) k2); constructor; auto.
+Qed.
+
+Lemma tm_wf_set e m : tm_wf m -> tm_wf (tm_set (e_trace e) e m).
+Proof. intros [H1 H2]. split; [now apply tm_set_sorted|now apply tm_set_keys]. Qed.
+
+Lemma tm_wf_tasc m : tm_wf m -> tasc (map snd m).
+Proof.
+  intros [H1 H2]. induction m as [|[k v] r IH]; cbn [map tasc]; [exact I|].
+  inversion H2 as [|? ? Hk Hr]; subst. destruct H1 as [Hlb Hs]. split; [|auto].
+  destruct r as [|[k2 v2] r2]; [exact I|]. cbn [map snd]. cbn [lb] in Hlb.
+  inversion Hr as [|? ? Hk2 _]; subst. cbn [fst snd] in *. now rewrite <- Hk, <- Hk2.
+Qed.
+
+Definition batches_wf (bs : list obatch) : Prop := Forall (fun ob => tm_wf (ob_entries ob)) bs.
+Definition state_wf (st : list ofile) : Prop := Forall (fun o => batches_wf (of_batches o)) st.
+
+Lemma place_wf h e bs : batches_wf bs -> batches_wf (place h e bs).
+Proof.
+  unfold batches_wf. induction bs as [|b r IH]; cbn [place]; intros H.
+  - constructor; [|constructor]. cbn [ob_entries]. apply tm_wf_set. split; [exact I|constructor].
+  - inversion H as [|? ? Hb Hr]; subst.
+    destruct (header_equal (ob_header b) h && negb (tm_contains (e_trace e) (ob_entries b))).
+    + constructor; [|exact Hr]. cbn [ob_entries]. now apply tm_wf_set.
+    + constructor; auto.
+Qed.
+
+Lemma add_batch_wf ib bs : batches_wf bs -> batches_wf (add_batch bs ib).
+Proof.
+  unfold add_batch. revert bs. induction (ib_entries ib) as [|e es IH]; intros bs H; cbn [fold_left]; [exact H|].
+  apply IH, place_wf, H.
+Qed.
+
+Lemma add_to_wf o f : batches_wf (of_batches o) -> batches_wf (of_batches (add_to o f)).
+Proof.
+  unfold add_to. cbn [of_batches]. generalize (of_batches o) as bs.
+  induction (if_batches f) as [|ib ibs IH]; intros bs H; cbn [fold_left]; [exact H|].
+  apply IH, add_batch_wf, H.
+Qed.
+
+Lemma add_file_wf st f : state_wf st -> state_wf (add_file st f).
+Proof.
+  unfold state_wf. induction st as [|o r IH]; cbn [add_file]; intros H.
+  - constructor; [|constructor]. apply add_to_wf. constructor.
+  - inversion H as [|? ? Ho Hr]; subst. destruct (same_route o f).
+    + constructor; [now apply add_to_wf|exact Hr].
+    + constructor; auto.
+Qed.
+
+Lemma build_state_wf fs : state_wf (build_state fs).
+Proof.
+  unfold build_state. destruct fs as [|f0 fs']; [constructor|].
+  assert (H : state_wf [new_ofile f0]) by (constructor; [constructor|constructor]).
+  revert H. generalize [new_ofile f0] as st. generalize (f0 :: fs') as fs.
+  induction fs as [|f fs IH]; intros st H; cbn [fold_left]; [exact H|]. apply IH, add_file_wf, H.
+Qed.
+
+Definition btr (bs : list rbatch) : Prop := Forall (fun rb => tasc (rb_entries rb)) bs.
+Definition out_tr (out : list rfile) : Prop := Forall (fun g => btr (rf_batches g)) out.
+
+Lemma btr_renumber seq bs : btr bs -> btr (renumber seq bs).
+Proof.
+  unfold btr. intros H. revert seq. induction H as [|b r Hb Hr IH]; intros seq; cbn [renumber]; constructor; auto.
+  destruct (rb_number b <=? 1); exact Hb.
+Qed.
+
+Lemma out_tr_close_file o bs out : out_tr out -> btr bs -> out_tr (close_file o bs out).
+Proof.
+  intros Hout Hbs. unfold close_file. destruct bs as [|b r]; [exact Hout|].
+  apply Forall_app. split; [exact Hout|]. constructor; [|constructor].
+  unfold create_file. cbn [rf_batches]. now apply btr_renumber.
+Qed.
+
+Lemma btr_close_batch h s : btr (c_file s) -> tasc (c_bent s) -> btr (close_batch h s).
+Proof.
+  intros Hf Hb. unfold close_batch. destruct (c_bent s) as [|e es] eqn:He; [exact Hf|].
+  apply Forall_app. split; [exact Hf|]. constructor; [exact Hb|constructor].
+Qed.
+
+Lemma convert_traces c st :
+  Forall (fun o => Forall (fun ob => tasc (map snd (ob_entries ob))) (of_batches o)) st -> out_tr (convert c st).
+Proof.
+  intros Hst. unfold convert. set (M := effective_dollar c).
+  apply (inv_files c M (fun o => Forall (fun ob => tasc (map snd (ob_entries ob))) (of_batches o))
+           (fun o h rest s => out_tr (c_out s) /\ btr (c_file s) /\ tasc (c_bent s ++ rest))
+           (fun o s => out_tr (c_out s) /\ btr (c_file s))
+           (fun acc => out_tr (fst acc))).
+  - intros o acc _ Hacc. cbn [c_out c_file]. split; [exact Hacc|constructor].
+  - intros o b s Ho Hb [Hout Hf]. cbn [c_out c_file c_bent app]. repeat split; try assumption.
+    rewrite Forall_forall in Ho. now apply Ho.
+  - intros o h e rest s _ (Hout & Hf & Hb). unfold step_entry. destruct (exceeds c M (c_L s) (c_D s) e).
+    + cbn [c_out c_file c_bent]. split; [|split; [constructor|]].
+      * apply out_tr_close_file; [exact Hout|]. apply btr_close_batch; [exact Hf|]. eapply tasc_app_l; exact Hb.
+      * apply tasc_app_r in Hb. exact Hb.
+    + cbn [c_out c_file c_bent]. repeat split; try assumption. now rewrite <- app_assoc.
+  - intros o h s _ (Hout & Hf & Hb). cbn [c_out c_file]. split; [exact Hout|].
+    apply btr_close_batch; [exact Hf|]. rewrite app_nil_r in Hb. exact Hb.
+  - intros o s _ [Hout Hf]. cbn [fst]. now apply out_tr_close_file.
+  - exact Hst.
+  - constructor.
+Qed.
+
+Lemma merge_traces fs c g rb : In g (merge_files fs c) -> In rb (rf_batches g) -> tasc (rb_entries rb).
+Proof.
+  intros Hg Hb. assert (H : out_tr (merge_files fs c)).
+  { apply convert_traces. pose proof (build_state_wf fs) as Hw. unfold state_wf, batches_wf in Hw.
+    eapply Forall_impl; [|exact Hw]. cbn. intros o Ho. eapply Forall_impl; [|exact Ho]. cbn.
+    intros ob. apply tm_wf_tasc. }
+  unfold out_tr, btr in H. rewrite Forall_forall in H. specialize (H g Hg).
+  rewrite Forall_forall in H. exact (H rb Hb).
+Qed.
